@@ -78,7 +78,9 @@ def networks():
     sym = "abcdefghijklmnopqrstuvwxyzABCDEFGHIJKLMNOPQRSTUVWXYZ"
     out = {}
     n = 10
-    out["ring10"] = ([(sym[i], sym[(i + 1) % n]) for i in range(n)], ())
+    out["ring10"] = ([(sym[i], sym[(i + 1) % n]) + ((sym[30 + i],)
+                      if i in (0, 3, 6) else ()) for i in range(n)],
+                     (sym[30], sym[33], sym[36]))
     e = {}
     k = [0]
 
@@ -99,12 +101,15 @@ def networks():
                 t.append(edge((r, c), (r, c + 1)))
             t.append(edge((0, c), (1, c)))
             lad.append(tuple(t))
-    out["ladder10"] = (lad, ())
+    lad[0] = lad[0] + ("Y",)
+    lad[7] = lad[7] + ("Z",)
+    out["ladder10"] = (lad, ("Z", "Y"))
     out["hyper9"] = ([(sym[i], sym[i + 1], "X") for i in range(9)],
                      (sym[0], sym[9]))
     out["two-rings12"] = (
         [(sym[i], sym[(i + 1) % 6]) for i in range(6)]
-        + [(sym[20 + i], sym[20 + (i + 1) % 6]) for i in range(6)], ())
+        + [(sym[20 + i], sym[20 + (i + 1) % 6]) for i in range(6)],
+        (sym[0], sym[22]))
     res = {}
     for name, (inputs, output) in out.items():
         inputs = tuple(tuple(t) for t in inputs)
@@ -160,6 +165,38 @@ def battery():
     B["tree.slice-noouter"] = lambda net, s: tree_sig(
         start_tree(net).slice(target_slices=2, seed=s, temperature=1.0,
                               allow_outer=False))
+    B["tree.slice-onlyouter"] = lambda net, s: tree_sig(
+        start_tree(net).slice(target_slices=4, seed=s, temperature=1.0,
+                              allow_outer="only", max_repeats=8))
+    B["tree.slice-noouter-8"] = lambda net, s: tree_sig(
+        start_tree(net).slice(target_slices=8, seed=s, temperature=1.0,
+                              allow_outer=False, max_repeats=8))
+    B["SliceFinder-noouter"] = lambda net, s: sorted(sl.SliceFinder(
+        start_tree(net), target_slices=8, temperature=1.0, seed=s,
+        allow_outer=False).search(8)[0])
+    # the same calls on ONE long-lived tree object per network (a tree that
+    # already went through a reconfiguration): determinism must not depend on
+    # what was called on that object before
+    shared = {}
+
+    def base(net):
+        key = id(net)
+        if key not in shared:
+            shared[key] = start_tree(net).subtree_reconfigure(
+                subtree_size=3, maxiter=2)
+        return shared[key]
+
+    B["shared.subtree_reconfigure"] = lambda net, s: tree_sig(
+        base(net).subtree_reconfigure(subtree_size=4, select="random",
+                                      maxiter=4, seed=s))
+    B["shared.slice"] = lambda net, s: tree_sig(
+        base(net).slice(target_slices=4, seed=s, temperature=1.0))
+    B["shared.simulated_anneal"] = lambda net, s: tree_sig(
+        base(net).simulated_anneal(tsteps=2, numiter=2, seed=s))
+    B["shared.forest"] = lambda net, s: tree_sig(
+        base(net).subtree_reconfigure_forest(
+            num_trees=2, num_restarts=2, subtree_maxiter=2, subtree_size=4,
+            parallel=False, seed=s))
     B["SliceFinder"] = lambda net, s: sorted(sl.SliceFinder(
         start_tree(net), target_slices=4, temperature=1.0,
         seed=s).search(4)[0])
